@@ -71,7 +71,7 @@ public:
         std::vector<Outcome> outs, keep;
         for (auto& s : cands)
         {
-            if (!model.step(s, op, now, outs) || outs.size() > MAX_CANDS)
+            if (!model.step(s, op, now, outs) || outs.size() > model.cand_cap())
             {
                 inconclusive = true;
                 ++ctr->inconclusive;
